@@ -134,6 +134,78 @@ class GPool(project.Pool):
         return super().add(rec)
 
 
+def observe(gfa, pool, universe=()):
+    """The part of project.observe() that TraceGraphOps reads, computed the same way (written text
+    of every listed line -> abstract record; forward references and back-reference collections as
+    indices into the listing; header; connected_components(); an order-insensitive digest).  The
+    full projection costs 3 ms per state (neighbourhood queries, lookups, counters), four states
+    per case; this one about a third."""
+    import hashlib
+    try:
+        listed = list(gfa.lines)
+    except Exception as e:  # noqa
+        return {"broken": "lines:" + type(e).__name__}
+    hdr, objs = [], []
+    for l in listed:
+        if l.record_type == "H":
+            t = project.safe_str(l)
+            hdr.append(t[2:] if t.startswith("H\t") else t)
+        else:
+            objs.append(l)
+    seen = {id(o) for o in objs}
+    objs.extend(o for o in gfa._records["\n"].values() if id(o) not in seen)
+    index = {id(o): i + 1 for i, o in enumerate(objs)}
+    out, canon = [], []
+    for o in objs:
+        text = project.safe_str(o)
+        fields = text.split("\t")
+        try:
+            npos = len(o.positional_fieldnames)
+        except Exception:  # noqa
+            npos = None
+        if o.record_type in ("\n", "#"):
+            npos = None
+        rec = project.abstract_fields(fields, npos=npos)
+        virt = 1 if o.virtual else 0
+        if (project.VIRT_TAG in fields) != bool(virt) and o.record_type != "\n":
+            rec = dict(rec, rt=rec["rt"] + "!virtmark")
+        own = 1 if o._gfa is gfa else 0
+        fwd = []
+        for k in o.__class__.REFERENCE_FIELDS:
+            if o.record_type == "P" and k == "overlaps":
+                continue
+            for t in project._targets(o._data.get(k)):
+                fwd.append([k, -1 if isinstance(t, str) else index.get(id(t), 0)])
+        refs = o._refs or {}
+        if o.record_type == "P":
+            for t in project._targets(refs.get("links", [])):
+                fwd.append(["links", -1 if isinstance(t, str) else index.get(id(t), 0)])
+        br = []
+        for k in sorted(refs.keys()):
+            if (o.record_type == "P" and k == "links") or (o.record_type in ("O", "U") and k == "items"):
+                continue
+            ids = []
+            for t in refs[k]:
+                for tt in project._targets(t):
+                    ids.append(-1 if isinstance(tt, str) else index.get(id(tt), 0))
+            if ids:
+                br.append([k, ids])
+        out.append({"p": pool.add(rec), "virt": virt, "own": own, "fwd": fwd, "br": br})
+        canon.append([text, virt, own])
+    texts = [c[0] for c in canon]
+    ref = lambda i: texts[i - 1] if i >= 1 else str(i)
+    for c, ln in zip(canon, out):
+        c.append(sorted([k, ref(i)] for k, i in ln["fwd"]))
+        c.append(sorted([k, sorted(ref(i) for i in ids)] for k, ids in ln["br"]))
+    try:
+        cc = sorted(sorted(str(x.name) for x in c) for c in gfa.connected_components())
+    except Exception as e:  # noqa
+        cc = [["!" + type(e).__name__]]
+    obs = {"lines": out, "hdr": sorted(hdr), "cc": cc}
+    obs["dig"] = hashlib.md5(json.dumps([sorted(canon), obs["hdr"], cc], sort_keys=True).encode()).hexdigest()[:12]
+    return obs
+
+
 def _guard(fn):
     """Run one call into gfapy; returns (result class, exception name, value)."""
     signal.setitimer(signal.ITIMER_REAL, 10.0)
@@ -173,7 +245,7 @@ def run_c14(job):
         rec["broken"] = "load:" + exc
         rec["pool"] = pool.items
         return rec
-    rec["pre"] = project.observe(gfa, pool, uni)
+    rec["pre"] = observe(gfa, pool, uni)
     r, e, v = _guard(lambda: [_path(p) for p in gfa.linear_paths()])
     rec["lps"] = dict(res=r, exc=e, paths=v if r == "ok" else [])
     lp = []
@@ -181,15 +253,14 @@ def run_c14(job):
         r, e, v = _guard(lambda: _path(gfa.linear_path(s["name"])))
         lp.append(dict(seg=s["name"], res=r, exc=e, path=v if r == "ok" else []))
     rec["lp"] = lp
-    rec["mid"] = project.observe(gfa, pool, uni)      # the queries must not have changed anything
     kw = dict(merged_name="short") if job["short"] else {}
     steps = []
     for _ in range(2):
         r, e, _v = _guard(lambda: gfa.merge_linear_paths(**kw))
-        steps.append(dict(res=r, exc=e, obs=project.observe(gfa, pool, uni)))
+        steps.append(dict(res=r, exc=e, obs=observe(gfa, pool, uni)))
     rec["m1"], rec["m2"] = steps
     rec["pool"] = pool.items
-    if any("broken" in o for o in (rec["pre"], rec["mid"], rec["m1"]["obs"], rec["m2"]["obs"])):
+    if any("broken" in o for o in (rec["pre"], rec["m1"]["obs"], rec["m2"]["obs"])):
         rec["broken"] = "listing"
     return rec
 
@@ -321,7 +392,7 @@ def c14_jobs(tier, seed, out=None):
         big, st2 = mc_graphs("MC_LinearPaths", 4, 4, "graphops-mc14-4", C14_INV)
         n4 = [c for c in big if len(c["links"]) == 4]
         rest = [c for c in big if len(c["links"]) < 4]
-        sample = rnd.sample(n4, min(len(n4), 60000))
+        sample = rnd.sample(n4, min(len(n4), 30000))
         bounds = ("3 segments x <= 4 dovetails and 4 segments x <= 3 dovetails exhaustive; "
                   "4 segments x 4 dovetails: %d of %d sampled" % (len(sample), len(n4)))
         cases = base + rest + sample
@@ -349,10 +420,36 @@ def _viol(prop, r, clauses, job):
                 job=job)
 
 
+def _order(viols):
+    """One violation of every distinct (clauses, result, version) signature first, so that the
+    replay files written by report.py show every kind of rejection of the run."""
+    groups = {}
+    for v in viols:
+        groups.setdefault((tuple(v["clauses"]), v["result"], v["version"]), []).append(v)
+    out = []
+    for g in groups.values():
+        g.sort(key=lambda v: (len(v["input"]), v["input"], v["api"]))      # smallest input first
+    rows = sorted(groups.values(), key=lambda g: (-len(g), g[0]["input"]))
+    i = 0
+    while any(rows):
+        for g in rows:
+            if i < len(g):
+                out.append(g[i])
+        i += 1
+        if i > max(len(g) for g in rows):
+            break
+    return out
+
+
 def check_c14(out, tier, seed):
+    t0 = time.time()
     jobs = c14_jobs(tier, seed, out)
+    t1 = time.time()
     recs = run_jobs(run_c14, jobs)
+    t2 = time.time()
     rej, states = validate(recs, "graphops-val14")
+    out.add_cov(phase_seconds="enumeration+laws (TLC) %.0f, gfapy %.0f, trace validation (TLC) %.0f on %d cpus"
+                % (t1 - t0, t2 - t1, time.time() - t2, NCPU))
     _machinery(recs, rej)
     byid = {j["id"]: j for j in jobs}
     for r in recs:
@@ -361,6 +458,7 @@ def check_c14(out, tier, seed):
             cl = ["C14.graph"]
         if cl:
             out.violations.append(_viol("C14", r, cl, byid[r["id"]]))
+    out.violations[:] = _order(out.violations)
     shapes = {json.dumps([r["text"]]) for r in recs if _c14_nontrivial(r)}
     out.add_cov(evaluations=len(recs), distinct_nontrivial=len(shapes), traces_validated=states,
                 rule="case = one enumerated graph (GFA1 or GFA2 text) on which linear_paths(), linear_path(s) "
@@ -431,9 +529,9 @@ def run_c15(job):
         rec["broken"] = "load:" + exc
         rec["pool"] = pool.items
         return rec
-    rec["pre"] = project.observe(gfa, pool, uni)
+    rec["pre"] = observe(gfa, pool, uni)
     r, e, _v = _guard(lambda: gfa.multiply(seg, a["k"], copy_names=(names or None), distribute=a["policy"]))
-    rec["m1"] = dict(res=r, exc=e, obs=project.observe(gfa, pool, uni))
+    rec["m1"] = dict(res=r, exc=e, obs=observe(gfa, pool, uni))
     rec["pool"] = pool.items
     if "broken" in rec["pre"] or "broken" in rec["m1"]["obs"]:
         rec["broken"] = "listing"
@@ -447,7 +545,7 @@ def c15_jobs(tier, seed, out=None):
         plan = {0: 4, 1: 4, 2: 3, 3: 0.4}          # dovetails in the graph -> argument tuples per graph
     else:
         shapes, args, given, st = mc_multiply(3, 4, 2, "graphops-mc15")
-        plan = {0: len(args), 1: len(args), 2: len(args), 3: 5, 4: 1}
+        plan = {0: len(args), 1: len(args), 2: len(args), 3: 4, 4: 0.5}
     # argument tuples that multiply (factor >= 2) are what the property is about: weight them
     heavy = [a for a in args if a["k"] >= 2]
     light = [a for a in args if a["k"] < 2]
@@ -484,9 +582,14 @@ def _c15_nontrivial(r):
 
 
 def check_c15(out, tier, seed):
+    t0 = time.time()
     jobs = c15_jobs(tier, seed, out)
+    t1 = time.time()
     recs = run_jobs(run_c15, jobs)
+    t2 = time.time()
     rej, states = validate(recs, "graphops-val15")
+    out.add_cov(phase_seconds="enumeration+laws (TLC) %.0f, gfapy %.0f, trace validation (TLC) %.0f on %d cpus"
+                % (t1 - t0, t2 - t1, time.time() - t2, NCPU))
     _machinery(recs, rej)
     byid = {j["id"]: j for j in jobs}
     for r in recs:
@@ -495,6 +598,7 @@ def check_c15(out, tier, seed):
             cl = ["C15.graph"]
         if cl:
             out.violations.append(_viol("C15", r, cl, byid[r["id"]]))
+    out.violations[:] = _order(out.violations)
     nt = {json.dumps([r["text"], r["call"]]) for r in recs if _c15_nontrivial(r)}
     out.add_cov(evaluations=len(recs), distinct_nontrivial=len(nt), traces_validated=states,
                 rule="case = one enumerated graph (GFA1 or GFA2 text) and one argument tuple of multiply(), "
